@@ -148,6 +148,22 @@ def handleAlgo (d : DState) (line : String) : Option String :=
       match w.toNat?, len.toNat?, depth.toNat?, st.toNat?, parseNatLists perms with
       | some w, some len, some depth, some st, some perms => some (showWalk (walksNbt d.graph w len depth st perms))
       | _, _, _, _, _ => some "ERR parse"
+    | ["export", maxDiam], [starts] =>
+      match maxDiam.toNat?, nats starts with
+      | some md, some S =>
+        let c : BfsCfg Nat := { maxStore := none, maxDiameter := md, returnEdges := true, returnHashes := true }
+        let r := bfs d.graph c S
+        let st := match allStates r with | some l => showNats l | none => "none"
+        let es := match edgesList r with
+          | some l => " ".intercalate (l.map fun (p : Nat × Nat) => toString p.1 ++ "," ++ toString p.2)
+          | none => "none"
+        some s!"{if r.completed then 1 else 0} ; {st} ; {es}"
+      | _, _ => some "ERR parse"
+    | ["edgegen"], [a, b] =>
+      match a.toNat?, b.toNat? with
+      | some a, some b => some (match edgeGen d.graph a b with | some i => toString i | none => "none")
+      | _, _ => some "ERR parse"
+    | ["vname"], [st] => (ints st).map vertexName
     | ["ibfs", steps], [starts] =>
       match steps.toNat?, nats starts with
       | some steps, some S =>
@@ -334,6 +350,39 @@ def handleKernel (line : String) : Option String :=
       match k.toNat?, nats xs with
       | some k, some xs => some (showLL (tensorSplit k xs))
       | _, _ => some "ERR parse"
+    | ["def.invmap"], gens =>
+      (gens.mapM nats).map fun ps => match GraphDef.inverseMapPerm ps with | some m => "some " ++ showNats m | none => "none"
+    | ["def.create"], name :: names :: central :: gens =>
+      match nats central, gens.mapM nats with
+      | some c, some ps =>
+        let nm := if names == "-" then none else some (toks names)
+        let cs := if central == "-" then none else some c
+        some (match GraphDef.PermDef.create ps nm cs name with
+          | some d => s!"ok ; {d.name} ; {" ".intercalate d.names} ; {showNats d.central} ; {showLL d.gens}"
+          | none => "ERR assert")
+      | _, _ => some "ERR parse"
+    | ["def.makeic"], name :: names :: central :: gens =>
+      match nats central, gens.mapM nats with
+      | some c, some ps =>
+        some (match (GraphDef.PermDef.create ps (some (toks names)) (some c) name).bind (·.makeInverseClosed) with
+          | some d => s!"ok ; {d.name} ; {" ".intercalate d.names} ; {showNats d.central} ; {showLL d.gens} ; {if d.inverseClosed then 1 else 0}"
+          | none => "ERR assert")
+      | _, _ => some "ERR parse"
+    | ["def.inverted"], central :: gens =>
+      match nats central, gens.mapM nats with
+      | some c, some ps =>
+        some (match (GraphDef.PermDef.create ps none (some c) "").bind (·.inverted) with
+          | some d => s!"ok ; {d.name} ; {" ".intercalate d.names} ; {showNats d.central} ; {showLL d.gens}"
+          | none => "ERR assert")
+      | _, _ => some "ERR parse"
+    | ["mat.inv", b, n], [A, cand] =>
+      match b.toNat?, n.toNat?, nats A, nats cand with
+      | some B, some n, some A, some cand => some (match Matrix.inv B n A cand with | some _ => "ok" | none => "fail")
+      | _, _, _, _ => some "ERR parse"
+    | ["mat.invmap", b, n], ms =>
+      match b.toNat?, n.toNat?, ms.mapM nats with
+      | some B, some n, some ms => some (match GraphDef.inverseMapMat B n ms with | some m => "some " ++ showNats m | none => "none")
+      | _, _, _ => some "ERR parse"
     | ["hash.mix"], [x] => (wordsOf x).map fun l => showInts (l.map fun w => Hash.key (Hash.evalMix Gen.mixSteps w))
     | ["hash.comb", seed], rows =>
       match seed.toInt?, rows.mapM wordsOf with
